@@ -19,8 +19,10 @@ SCRIPT_THREAD = 'Agent._execute_and_call'
 CLOCK_THREAD = 'Clock.run'
 
 
-def configure(devices, tick, output='rec', overrides=None):
-    conf = {'sleep_time': tick, 'manifest_file_name': None}
+def configure(devices, tick, output='rec', overrides=None, tick_as_text=False):
+    # (a configuration file delivers its values as text)
+    conf = {'sleep_time': repr(tick) if tick_as_text else tick,
+            'manifest_file_name': None}
     conf.update(overrides or {})
     env.configure(simnet.make_devices(devices), clock='real', output=output,
                   overrides=conf)
